@@ -834,7 +834,13 @@ fn main() {
         cases.push(("random".to_string(), gen_case(&mut r, &mut report)));
     }
 
+    let mut shrinks_left = 4u32; // shrinking re-runs the history many times; a crash costs ~1 s
+    let mut failing = 0u32;
     for (origin, case) in cases {
+        if failing >= 40 {
+            report.notes.push("stopped early: 40 failing histories".to_string());
+            break;
+        }
         let text = case_text(&case);
         report.case(if nontrivial(&case) { Some(&text) } else { None });
         report.bump(&format!("origin.{}", origin.split('.').next().unwrap_or("corpus")));
@@ -857,14 +863,19 @@ fn main() {
         let (differs, model_out) = model.differs(&ml, &impl_out);
         report.sample(json!({"history": text, "impl": impl_out, "model": model_out}));
         let bad = oracle(&case, &run);
+        if differs || !bad.is_empty() {
+            failing += 1;
+        }
         if differs {
             let strat = case.strat;
             let salt = case.salt;
-            let shrunk = ddmin(&case.ops, &mut |cand: &[Op]| {
+            let do_shrink = shrinks_left > 0;
+            shrinks_left = shrinks_left.saturating_sub(1);
+            let shrunk = if !do_shrink { case.ops.clone() } else { ddmin(&case.ops, &mut |cand: &[Op]| {
                 let c = Case { strat, salt, ops: cand.to_vec() };
                 let r = imp.run(&c);
                 model.differs(&model_line(&c, &r, vnodes), &r.tokens.join(";")).0
-            });
+            }) };
             let sc = Case { strat, salt, ops: shrunk };
             let sr = imp.run(&sc);
             let sm = model.ask(&model_line(&sc, &sr, vnodes));
@@ -879,11 +890,13 @@ fn main() {
         if !bad.is_empty() {
             let strat = case.strat;
             let salt = case.salt;
-            let shrunk = ddmin(&case.ops, &mut |cand: &[Op]| {
+            let do_shrink = shrinks_left > 0;
+            shrinks_left = shrinks_left.saturating_sub(1);
+            let shrunk = if !do_shrink { case.ops.clone() } else { ddmin(&case.ops, &mut |cand: &[Op]| {
                 let c = Case { strat, salt, ops: cand.to_vec() };
                 let r = imp.run(&c);
                 !oracle(&c, &r).is_empty()
-            });
+            }) };
             let sc = Case { strat, salt, ops: shrunk };
             let sr = imp.run(&sc);
             let sbad = oracle(&sc, &sr);
